@@ -1169,6 +1169,9 @@ class PDFPageInterpreter:
 
     def do_TJ(self, seq: PDFStackT) -> None:
         """Show text, allowing individual glyph positioning"""
+        if not isinstance(seq, list):
+            log.warning(f"Cannot show text because {seq!r} is not an array")
+            return
         if self.textstate.font is None:
             if settings.STRICT:
                 raise PDFInterpreterError("No font specified!")
@@ -1183,6 +1186,9 @@ class PDFPageInterpreter:
 
     def do_Tj(self, s: PDFStackT) -> None:
         """Show text"""
+        if not isinstance(s, bytes):
+            log.warning(f"Cannot show text because {s!r} is not a string")
+            return
         self.do_TJ([s])
 
     def do__q(self, s: PDFStackT) -> None:
@@ -1190,6 +1196,9 @@ class PDFPageInterpreter:
 
         The ' (single quote) operator.
         """
+        if not isinstance(s, bytes):
+            log.warning(f"Cannot show text because {s!r} is not a string")
+            return
         self.do_T_a()
         self.do_TJ([s])
 
@@ -1198,6 +1207,15 @@ class PDFPageInterpreter:
 
         The " (double quote) operator.
         """
+        if (
+            safe_float(aw) is None
+            or safe_float(ac) is None
+            or not isinstance(s, bytes)
+        ):
+            log.warning(
+                f"Cannot set spacing and show text because the operands {(aw, ac, s)!r} are not two numbers and a string"
+            )
+            return
         self.do_Tw(aw)
         self.do_Tc(ac)
         self.do_T_a()
